@@ -1017,12 +1017,17 @@ def emission_rule(R1, X):
         raise AnalysisError('asm_all_candidate: no return after the emission loop')
     frag = aac.body[j0:rets[0] + 1]
     st = Obj('struct')
-    st.pack = Native(lambda f, *v: _struct.pack(f, *[int(x) for x in v]))
+    def _pack(f, *v):
+        try:
+            return _struct.pack(f, *[int(x) for x in v])
+        except _struct.error as e_:
+            raise PyRaise('struct.pack(%r, ..): %s' % (f, e_), 'struct.error', e_)
+    st.pack = Native(_pack)
     st.calcsize = Native(_struct.calcsize)
 
     def mk_struct(fmt):
         o = Obj('Struct')
-        o.pack = Native(lambda *v: _struct.Struct(fmt).pack(*[int(x) for x in v]))
+        o.pack = Native(lambda *v: _pack(fmt, *v))
         o.size = _struct.Struct(fmt).size
         o.format = fmt
         return o
@@ -1105,7 +1110,8 @@ MUTANTS = [
     ('deref2-overwrite', 'miasmx/arch/ia32_att.py', "    t[0][reg] = 1 + t[0].get(reg, 0)", "    t[0][reg] = 1", 'C02.D4'),
     ('fd-afs-mm-all-bytes', 'miasmx/arch/ia32_arch.py', "            # the reverse table only lists bytes with an empty reg field\n            if i == i&0xC7:\n                self.fd_afs[ad].append((i, None))", "            self.fd_afs[ad].append((i, None))", 'C02.D5'),
     ('fd-afs-wrong-index', 'miasmx/arch/ia32_arch.py', "                if not (index, None)  in self.fd_afs[ad]:\n                    self.fd_afs[ad].insert(0, (index, None) )\n        for i in range(0x100):", "                if not (index, None)  in self.fd_afs[ad]:\n                    self.fd_afs[ad].insert(0, (index^1, None) )\n        for i in range(0x100):", 'C02.D5'),
-    ('mode-detect-break', 'miasmx/arch/ia32_arch.py', "                    # keep looking: a 32-bit register further on wins\n                    # (e.g. the port register of 'out dx, eax')\n                    self.mnemo_mode = u16\n", "                    self.mnemo_mode = u16\n                    break\n", 'C02.D3'),
+    # ('mode-detect-break' retired: with the in/out port exemption a `break` after the first 16-bit operand changes no decision on a valid line - an equivalent mutant that the
+    #  old reading of the loop's shape reported; the vote is now decided on values, C02.D3 / D14)
     ('brackets-overwrite', 'miasmx/core/parse_ad.py', "    t[0] = t[3]\n    t[0][x86_afs.imm] = t[0].get(x86_afs.imm, 0) + int(int32(uint32(int(t[1]))))", "    t[0] = t[3]\n    t[0][x86_afs.imm] = int(int32(uint32(int(t[1]))))", 'C02.D4'),
     ('att-const-update', 'miasmx/arch/ia32_att.py', "    if x86_afs.imm in t[1] and x86_afs.imm in t[3]:\n        # both sides carry a number: add them\n        t[3][x86_afs.imm] = t[1][x86_afs.imm] + t[3][x86_afs.imm]\n", "", 'C02.D4'),
     ('mmx-mode-detect', 'miasmx/arch/ia32_arch.py', "            if c.modifs[sd] or c.modifs[wd] or c.modifs[mmx]:\n                can_be_16_32 = False", "            if c.modifs[sd] or c.modifs[wd]:\n                can_be_16_32 = False", 'C02.D3'),
